@@ -468,3 +468,6 @@ def run(repo: Repo, rep: Report, tier: str) -> None:
 
     clamp_rule(repo, rep, "C09.R15")
     union_call_rule(repo, rep, "C09.R16")
+    from .c08 import meta_call_rule
+
+    meta_call_rule(repo, rep, "C09.R17")
